@@ -1,7 +1,10 @@
 package nc
 
 import (
+	"fmt"
 	"go/token"
+	"go/types"
+	"strings"
 
 	"golang.org/x/tools/go/ssa"
 )
@@ -210,4 +213,1057 @@ func c04Feeders(v ssa.Value) []ssa.Value {
 	}
 	visit(v, 0)
 	return out
+}
+
+// ---- fourth round: branch conditions are read as facts, whatever their spelling ----
+
+// A relation mask says which of a < b, a == b, a > b are still possible.
+const (
+	c04LT = 1
+	c04EQ = 2
+	c04GT = 4
+)
+
+// c04RelMask: the orderings of (x, y) that `x op y` admits.
+func c04RelMask(op token.Token) int {
+	switch op {
+	case token.EQL:
+		return c04EQ
+	case token.NEQ:
+		return c04LT | c04GT
+	case token.LSS:
+		return c04LT
+	case token.LEQ:
+		return c04LT | c04EQ
+	case token.GTR:
+		return c04GT
+	case token.GEQ:
+		return c04GT | c04EQ
+	}
+	return c04LT | c04EQ | c04GT
+}
+
+// c04FlipMask: the same fact with the operands exchanged (a < b is b > a).
+func c04FlipMask(m int) int {
+	out := m & c04EQ
+	if m&c04LT != 0 {
+		out |= c04GT
+	}
+	if m&c04GT != 0 {
+		out |= c04LT
+	}
+	return out
+}
+
+// c04OrderFact: what the branch outcome (cond, outcome) says about the ordering of a value accepted by `left`
+// against a value accepted by `right`, as a relation mask of (left, right). The condition is read through CmpFact
+// (the comparison that HOLDS: negations removed, a false outcome complemented), and `a < b` and `b > a` are the
+// same fact. ok is false when the outcome is not a comparison of such a pair.
+func c04OrderFact(cond ssa.Value, outcome bool, left, right func(ssa.Value) bool) (l, r ssa.Value, mask int, ok bool) {
+	x, y, op, isCmp := CmpFact(cond, outcome)
+	if !isCmp {
+		return nil, nil, 0, false
+	}
+	if left(x) && right(y) {
+		return x, y, c04RelMask(op), true
+	}
+	if left(y) && right(x) {
+		return y, x, c04FlipMask(c04RelMask(op)), true
+	}
+	return nil, nil, 0, false
+}
+
+// c04IsNilTest: the branch outcome compares something with nil (in either operand order, negated or not).
+func c04IsNilTest(cond ssa.Value, outcome bool) bool {
+	_, y, op, ok := CmpFact(cond, outcome)
+	if !ok || (op != token.EQL && op != token.NEQ) {
+		return false
+	}
+	c, isC := y.(*ssa.Const)
+	return isC && c.Value == nil && isNillable(c.Type())
+}
+
+// c04BoolFieldIs: the branch outcome g says that the boolean field v.<path> has the value `want` - as the bare field
+// (`if g.IsEnabled`, `if !g.IsEnabled`) or compared with a boolean constant (`g.IsEnabled == false`, `true != g.IsEnabled`).
+func c04BoolFieldIs(tm *Termer, g Guard, v ssa.Value, want bool, path ...string) bool {
+	if boolFieldCond(tm, g, v, want, path...) {
+		return true
+	}
+	x, y, op, ok := CmpFact(g.Cond, g.True)
+	if !ok || (op != token.EQL && op != token.NEQ) {
+		return false
+	}
+	c, isC := y.(*ssa.Const)
+	if !isC || !c04IsBool(c) || c.Value == nil {
+		return false
+	}
+	val := IsConstBool(c, true)
+	if op == token.NEQ {
+		val = !val
+	}
+	return val == want && fieldChainOn(tm.Of(x), v, path...)
+}
+
+// c04LoopBound: the loop is left at its header exactly when `i < len(list)` stops to hold, for a list that `isList`
+// accepts (its term): the header's branch outcome that stays in the loop is the fact `i < len(list)` in any spelling
+// (`len(list) > i`, `!(i >= len(list))`, ...). Returns the index value i; nil when the header does not say that.
+func c04LoopBound(tm *Termer, l *Loop, isList func(*Term) bool) ssa.Value {
+	if l == nil {
+		return nil
+	}
+	iff, ok := l.Header.Instrs[len(l.Header.Instrs)-1].(*ssa.If)
+	if !ok || len(l.Header.Succs) != 2 || l.Blocks[l.Header.Succs[0]] == l.Blocks[l.Header.Succs[1]] {
+		return nil
+	}
+	stay := l.Blocks[l.Header.Succs[0]]
+	isLen := func(v ssa.Value) bool {
+		t := tm.Of(v)
+		return t.Op == "len" && len(t.Args) == 1 && isList(t.Args[0])
+	}
+	notLen := func(v ssa.Value) bool { return tm.Of(v).Op != "len" }
+	if idx, _, m, ok := c04OrderFact(iff.Cond, stay, notLen, isLen); ok && m == c04LT {
+		return idx
+	}
+	return nil
+}
+
+// c04LoopRangesOver: loopRangesOver in any spelling of the bound test.
+func c04LoopRangesOver(tm *Termer, l *Loop, what string) bool {
+	return c04LoopBound(tm, l, func(t *Term) bool { return t.String() == what }) != nil
+}
+
+// c04FromZeroByOne: the index idx tested in the header of l takes the values 0, 1, 2, ... in successive iterations:
+// it is a header phi entered with 0 and advanced by exactly 1 on every back edge (`for i := 0; ..; i++`), or - the
+// form a range loop compiles to - `k + 1` of a header phi k entered with -1 that receives this very sum on every back
+// edge. Together with the bound `idx < len(list)` and no other way out, the body sees every index of the list.
+func c04FromZeroByOne(l *Loop, idx ssa.Value) bool {
+	plusOne := func(v ssa.Value, ph *ssa.Phi) bool {
+		b, ok := v.(*ssa.BinOp)
+		if !ok || b.Op != token.ADD {
+			return false
+		}
+		x, y := b.X, b.Y
+		if y == ssa.Value(ph) {
+			x, y = y, x
+		}
+		k, isK := constInt(y)
+		return x == ssa.Value(ph) && isK && k == 1
+	}
+	counted := func(ph *ssa.Phi, init int64, step func(ssa.Value) bool) bool {
+		if ph.Block() != l.Header {
+			return false
+		}
+		in, out := 0, 0
+		for i, e := range ph.Edges {
+			if l.Blocks[l.Header.Preds[i]] {
+				in++
+				if !step(e) {
+					return false
+				}
+			} else {
+				out++
+				if k, isK := constInt(e); !isK || k != init {
+					return false
+				}
+				if _, isC := e.(*ssa.Const); !isC {
+					return false
+				}
+			}
+		}
+		return in > 0 && out > 0
+	}
+	if ph, ok := idx.(*ssa.Phi); ok {
+		return counted(ph, 0, func(e ssa.Value) bool { return plusOne(e, ph) })
+	}
+	if b, ok := idx.(*ssa.BinOp); ok && b.Block() == l.Header {
+		for _, op := range []ssa.Value{b.X, b.Y} {
+			if ph, ok := op.(*ssa.Phi); ok && plusOne(b, ph) {
+				return counted(ph, -1, func(e ssa.Value) bool { return e == idx })
+			}
+		}
+	}
+	return false
+}
+
+// c04OnlyHeaderExit: the loop is left only through its header test (no break, no return in the body).
+func c04OnlyHeaderExit(l *Loop) bool {
+	for b := range l.Blocks {
+		for _, s := range b.Succs {
+			if !l.Blocks[s] && b != l.Header {
+				return false
+			}
+		}
+	}
+	return true
+}
+
+// c04EvalBool evaluates the boolean value v along the path ip under a truth assignment of atoms: atom(x, y) names the
+// atom that the equality of x and y is (-1: none). Phis are resolved along the path; constants, negation, == / != of an
+// atom pair or of two evaluable booleans, and the non-short-circuit & | on booleans are understood. known is false for
+// anything else.
+func c04EvalBool(ip *IterPath, v ssa.Value, atom func(x, y ssa.Value) int, asg []bool, depth int) (val, known bool) {
+	if depth > 20 {
+		return false, false
+	}
+	v = ip.ResolveAt(v)
+	switch x := v.(type) {
+	case *ssa.Const:
+		if IsConstBool(x, true) {
+			return true, true
+		}
+		if IsConstBool(x, false) {
+			return false, true
+		}
+	case *ssa.UnOp:
+		if x.Op == token.NOT {
+			r, k := c04EvalBool(ip, x.X, atom, asg, depth+1)
+			return !r, k
+		}
+	case *ssa.BinOp:
+		switch x.Op {
+		case token.EQL, token.NEQ:
+			if id := atom(x.X, x.Y); id >= 0 && id < len(asg) {
+				return asg[id] == (x.Op == token.EQL), true
+			}
+			if c04IsBool(x.X) && c04IsBool(x.Y) {
+				l, lk := c04EvalBool(ip, x.X, atom, asg, depth+1)
+				r, rk := c04EvalBool(ip, x.Y, atom, asg, depth+1)
+				if lk && rk {
+					return (l == r) == (x.Op == token.EQL), true
+				}
+			}
+		case token.AND, token.OR:
+			if !c04IsBool(x) {
+				return false, false
+			}
+			l, lk := c04EvalBool(ip, x.X, atom, asg, depth+1)
+			r, rk := c04EvalBool(ip, x.Y, atom, asg, depth+1)
+			if lk && rk {
+				if x.Op == token.AND {
+					return l && r, true
+				}
+				return l || r, true
+			}
+		}
+	}
+	return false, false
+}
+
+// c04StoresAtIndexEveryIteration: every iteration of l executes a store `x[idx] = (a[idx] + b[idx]) / 2`-shaped store
+// at the loop index (the shape of the value is decided by the caller through the constructor summary; here: the
+// address is indexed by idx, every element read in the stored value is read at idx, and the store's block lies on
+// every way round the loop).
+func c04StoresAtIndexEveryIteration(tm *Termer, l *Loop, idx ssa.Value) bool {
+	for b := range l.Blocks {
+		if il := InnermostLoop(Loops(b.Parent()), b); il == nil || il.Header != l.Header {
+			continue
+		}
+		every := true
+		for _, lt := range l.Latch {
+			if !(b == lt || b.Dominates(lt)) {
+				every = false
+			}
+		}
+		if !every {
+			continue
+		}
+		for _, in := range b.Instrs {
+			st, ok := in.(*ssa.Store)
+			if !ok {
+				continue
+			}
+			ia, ok := st.Addr.(*ssa.IndexAddr)
+			if !ok || ia.Index != idx {
+				continue
+			}
+			okIdx, n := true, 0
+			var visit func(t *Term, depth int)
+			visit = func(t *Term, depth int) {
+				if t == nil || depth > 8 {
+					return
+				}
+				if t.Op == "elem" && len(t.Args) > 1 {
+					n++
+					if t.Args[1].V != idx {
+						okIdx = false
+					}
+				}
+				for _, a := range t.Args {
+					visit(a, depth+1)
+				}
+			}
+			visit(tm.Of(st.Val), 0)
+			if okIdx && n > 0 {
+				return true
+			}
+		}
+	}
+	return false
+}
+
+// c04MateTraitsCoverage: mateTraits fills EVERY position of the child's trait list and hands that list back unless
+// an average failed. Needed by the property: the child "has the parents' number of traits with averaged parameters";
+// a position that is skipped stays nil (and is dereferenced when the first gene or node refers to it), and a list
+// that is not returned leaves the child without traits.
+func (r *Run) c04MateTraitsCoverage(mt, avg *ssa.Function, tm *Termer, avgStores []*ssa.Store) {
+	p := r.P
+	pos := p.Pos(mt.Pos())
+	loops := Loops(mt)
+	var made ssa.Value
+	okCover, why := false, "no store of an averaged trait found in a loop"
+	var loop *Loop
+	for _, st := range avgStores {
+		ia := st.Addr.(*ssa.IndexAddr)
+		l := InnermostLoop(loops, st.Block())
+		if l == nil {
+			continue
+		}
+		if ms, ok := stripPtr(ia.X).(*ssa.MakeSlice); ok {
+			made = ms
+		}
+		idx := c04LoopBound(tm, l, func(t *Term) bool {
+			return t.String() == "recv.Traits" || t.String() == "p1.Traits" || (t.V != nil && t.V == made)
+		})
+		every := true
+		for _, lt := range l.Latch {
+			if !(st.Block() == lt || st.Block().Dominates(lt)) {
+				every = false
+			}
+		}
+		switch {
+		case idx == nil:
+			why = "the loop does not run while i < len(g.Traits)"
+		case !c04FromZeroByOne(l, idx):
+			why = "the loop index does not start at 0 and advance by 1 in every iteration"
+		case ia.Index != idx:
+			why = "the average is not stored at the loop index"
+		case !every:
+			why = "an iteration can go round the loop without storing the average"
+		default:
+			okCover, loop = true, l
+		}
+	}
+	r.Check(okCover, "mateTraits.covers", pos, "one average per index 0 .. len(g.Traits)-1", "mateTraits does not fill every position of the child's trait list: "+why)
+	if !okCover {
+		return
+	}
+	// the error of the average, as tested in this function
+	isErr := func(v ssa.Value) bool {
+		for _, f := range phiWeb(v).Feeders {
+			if ex, ok := f.(*ssa.Extract); ok && ex.Index == 1 {
+				if c, ok := ex.Tuple.(*ssa.Call); ok && c.Call.StaticCallee() == avg {
+					continue
+				}
+			}
+			return false
+		}
+		_, isExtract := v.(*ssa.Extract)
+		_, isPhi := v.(*ssa.Phi)
+		return isExtract || isPhi
+	}
+	failed := func(gs []Guard) bool {
+		for _, g := range gs {
+			if GuardNilness(g, isErr) == -1 {
+				return true
+			}
+		}
+		return false
+	}
+	// the loop is left early only when an average failed
+	okExit := true
+	for b := range loop.Blocks {
+		for _, sx := range b.Succs {
+			if !loop.Blocks[sx] && b != loop.Header && !failed(condsAt(b, sx)) {
+				okExit = false
+			}
+		}
+	}
+	r.Check(okExit, "mateTraits.exit", pos, "the loop over the traits is left early only when NewTraitAvrg reported an error", "mateTraits can stop averaging before the last trait although no average failed: the remaining traits of the child are nil")
+	// every return not under a failed average hands back the filled list, after the loop
+	okRet, whyRet := true, ""
+	for _, b := range mt.Blocks {
+		ret, ok := b.Instrs[len(b.Instrs)-1].(*ssa.Return)
+		if !ok || len(ret.Results) != 2 {
+			continue
+		}
+		if failed(Guards(b)) {
+			continue
+		}
+		isList := made != nil
+		for _, f := range phiWeb(ret.Results[0]).Feeders {
+			if stripPtr(f) != made {
+				isList = false
+			}
+		}
+		if !isList {
+			okRet, whyRet = false, "a return that is not the consequence of a failed average yields "+tm.Of(ret.Results[0]).String()+" instead of the list just filled (at "+p.Pos(ret.Pos())+")"
+		} else if loop.Blocks[b] || !loop.Header.Dominates(b) {
+			okRet, whyRet = false, "the list is returned before the loop over the traits has finished (at "+p.Pos(ret.Pos())+")"
+		} else if k, isK := ret.Results[1].(*ssa.Const); !isK || k.Value != nil {
+			okRet, whyRet = false, "the filled list is returned together with a non-nil error, so the crossover fails although every average succeeded (at "+p.Pos(ret.Pos())+")"
+		}
+	}
+	r.Check(okRet, "mateTraits.returns", pos, "unless an average failed, the filled list is returned after the loop, with a nil error", "mateTraits does not hand the averaged traits back: "+whyRet)
+}
+
+// c04TraitAvrgFailsOnlyOnMismatch: NewTraitAvrg refuses (returns an error / no trait) only when the two traits have
+// different parameter counts. The property quantifies over parents with a common ancestry - equal parameter counts -
+// and demands an averaged trait for them; a refusal under any other condition makes every crossover fail.
+func (r *Run) c04TraitAvrgFailsOnlyOnMismatch(avg *ssa.Function) {
+	p := r.P
+	tm := NewTermer(avg)
+	isLenOf := func(par string) func(ssa.Value) bool {
+		return func(v ssa.Value) bool { return tm.Of(v).String() == "len("+par+".Params)" }
+	}
+	mismatch := func(gs []Guard) bool {
+		for _, g := range gs {
+			if _, _, m, ok := c04OrderFact(g.Cond, g.True, isLenOf("p0"), isLenOf("p1")); ok && m&c04EQ == 0 && m != 0 {
+				return true
+			}
+		}
+		return false
+	}
+	ok, why := true, ""
+	n := 0
+	for _, b := range avg.Blocks {
+		ret, isRet := b.Instrs[len(b.Instrs)-1].(*ssa.Return)
+		if !isRet || len(ret.Results) != 2 {
+			continue
+		}
+		n++
+		if mismatch(Guards(b)) {
+			continue
+		}
+		// a return for traits of equal size: a trait and a nil error
+		if k, isK := ret.Results[1].(*ssa.Const); !isK || k.Value != nil {
+			ok, why = false, fmt.Sprintf("a return at %s yields the error %s although the parameter counts were not found different", p.Pos(ret.Pos()), tm.Of(ret.Results[1]))
+		}
+		for _, f := range phiWeb(ret.Results[0]).Feeders {
+			if k, isK := f.(*ssa.Const); isK && k.Value == nil {
+				ok, why = false, fmt.Sprintf("a return at %s yields no trait although the parameter counts were not found different", p.Pos(ret.Pos()))
+			}
+		}
+	}
+	r.Check(ok && n > 0, "NewTraitAvrg.refusal", p.Pos(avg.Pos()), "an error / nil trait is returned only when the two traits' parameter counts differ", "NewTraitAvrg refuses traits of equal size: "+why)
+}
+
+// ---- fourth round, second goal: obligations for mutants of the crossover code that no check saw ----
+
+// c04ChildProduced: a crossover refuses (returns no genome / an error) only when the parents' trait counts differ or
+// the trait averaging failed. The property is stated for parents with equal trait counts and demands a child with
+// the stated genes, nodes and traits; a refusal under any other condition (or a nil child with a nil error) breaks it
+// for every pair of parents.
+func (r *Run) c04ChildProduced(s *mateShape) {
+	p, tm := r.P, s.tm
+	mt := p.Func(PkgG, "Genome.mateTraits")
+	ctors := map[*ssa.Function]bool{p.Func(PkgG, "NewGenome"): true, p.Func(PkgG, "NewModularGenome"): true}
+	isLenOf := func(par string) func(ssa.Value) bool {
+		return func(v ssa.Value) bool { return tm.Of(v).String() == "len("+par+".Traits)" }
+	}
+	isErr := func(v ssa.Value) bool {
+		n := 0
+		for _, f := range phiWeb(v).Feeders {
+			ex, ok := f.(*ssa.Extract)
+			if !ok || ex.Index != 1 {
+				return false
+			}
+			c, ok := ex.Tuple.(*ssa.Call)
+			if !ok || c.Call.StaticCallee() != mt {
+				return false
+			}
+			n++
+		}
+		return n > 0
+	}
+	excused := func(gs []Guard) bool {
+		for _, g := range gs {
+			if _, _, m, ok := c04OrderFact(g.Cond, g.True, isLenOf("recv"), isLenOf("p1")); ok && m != 0 && m&c04EQ == 0 {
+				return true
+			}
+			if GuardNilness(g, isErr) == -1 {
+				return true
+			}
+		}
+		return false
+	}
+	ok, why, n := true, "", 0
+	for _, b := range s.fn.Blocks {
+		ret, isRet := b.Instrs[len(b.Instrs)-1].(*ssa.Return)
+		if !isRet || len(ret.Results) != 2 {
+			continue
+		}
+		if excused(Guards(b)) {
+			continue
+		}
+		n++
+		w := phiWeb(ret.Results[0])
+		isChild := !w.HasNil && len(w.Consts) == 0 && len(w.Feeders) > 0
+		for _, f := range w.Feeders {
+			c, isCall := f.(*ssa.Call)
+			if !isCall || !ctors[c.Call.StaticCallee()] {
+				isChild = false
+			}
+		}
+		if !isChild {
+			ok, why = false, "the return at "+p.Pos(ret.Pos())+" yields "+tm.Of(ret.Results[0]).String()+" instead of a new genome although the trait counts were not found different and the trait averaging did not fail"
+		} else if k, isK := ret.Results[1].(*ssa.Const); !isK || k.Value != nil {
+			ok, why = false, "the return at "+p.Pos(ret.Pos())+" yields a child together with a non-nil error"
+		}
+	}
+	r.Check(ok && n > 0, s.name+".refusal", p.Pos(s.fn.Pos()), "no child / an error only when the trait counts differ or the trait averaging failed", s.name+" does not produce a child for well-formed parents: "+why)
+}
+
+// c04ListOrigins: the values a list variable is built from, looking through phis, captured-variable cells, append
+// (its first argument) and nodeInsert (its first argument).
+func c04ListOrigins(v ssa.Value, ni *ssa.Function) []ssa.Value {
+	var out []ssa.Value
+	seen := map[ssa.Value]bool{}
+	var visit func(v ssa.Value, depth int)
+	visit = func(v ssa.Value, depth int) {
+		if v == nil || seen[v] || depth > 16 {
+			return
+		}
+		seen[v] = true
+		w := phiWeb(v)
+		for _, k := range w.Consts {
+			out = append(out, k)
+		}
+		for _, f := range c04Feeders(v) {
+			if seen[f] && f != v {
+				continue
+			}
+			if base, _, ok := appendCall(f); ok {
+				seen[f] = true
+				visit(base, depth+1)
+				continue
+			}
+			if c, ok := f.(*ssa.Call); ok && ni != nil && c.Call.StaticCallee() == ni {
+				seen[f] = true
+				visit(c.Call.Args[0], depth+1)
+				continue
+			}
+			seen[f] = true
+			out = append(out, f)
+		}
+	}
+	visit(v, 0)
+	return out
+}
+
+// c04EmptyNew: v is a freshly allocated slice of length 0 (`make([]T, 0)`, `make([]T, 0, n)`, `[]T{}`).
+func c04EmptyNew(v ssa.Value) bool {
+	switch x := v.(type) {
+	case *ssa.MakeSlice:
+		k, ok := constInt(x.Len)
+		return ok && k == 0
+	case *ssa.Slice:
+		al, ok := x.X.(*ssa.Alloc)
+		if !ok {
+			return false
+		}
+		if x.High != nil {
+			k, ok := constInt(x.High)
+			return ok && k == 0 && x.Low == nil
+		}
+		if pt, ok := al.Type().Underlying().(*types.Pointer); ok {
+			if at, ok := pt.Elem().Underlying().(*types.Array); ok {
+				return at.Len() == 0
+			}
+		}
+	}
+	return false
+}
+
+// c04FreshLists: the child's gene list and node list start empty and grow only by append / nodeInsert: every origin
+// of the list the gene copies are appended to (resp. the node copies are inserted into) is a new slice of length 0 (or
+// nil). A list that starts with an element holds a nil gene / nil node (dereferenced by the next conflict scan resp.
+// node search); a list that starts from a parent's list makes the child hold genes no walk step chose and lets the
+// appends write into the parent's array.
+func (r *Run) c04FreshLists(s *mateShape) {
+	p, tm := r.P, s.tm
+	ni := p.Func(PkgG, "nodeInsert")
+	nnc := p.Func(PkgN, "NewNNodeCopy")
+	describe := func(origins []ssa.Value) (bool, string) {
+		for _, o := range origins {
+			if k, isK := o.(*ssa.Const); isK && k.Value == nil {
+				continue
+			}
+			if !c04EmptyNew(o) {
+				return false, tm.Of(o).String() + " (" + p.Pos(o.Pos()) + ")"
+			}
+		}
+		return true, ""
+	}
+	var geneList ssa.Value
+	Instrs(s.fn, func(_ *ssa.BasicBlock, _ int, in ssa.Instruction) {
+		if c, ok := in.(*ssa.Call); ok {
+			if base, elems, ok := appendCall(c); ok {
+				for _, e := range elems {
+					if e == ssa.Value(s.copyCall) {
+						geneList = base
+					}
+				}
+			}
+		}
+	})
+	if geneList != nil {
+		ok, what := describe(c04ListOrigins(geneList, ni))
+		r.Check(ok, s.name+".genes.fresh", p.Pos(s.copyCall.Pos()), "the child's gene list starts as a new empty list", "the list the child's genes are appended to does not start empty: it starts as "+what)
+	}
+	var bad []string
+	n := 0
+	for _, ic := range CallsTo(s.fn, ni) {
+		c, isCall := c04Unload(ic.Common().Args[1]).(*ssa.Call)
+		if !isCall || c.Call.StaticCallee() != nnc {
+			continue
+		}
+		n++
+		if ok, what := describe(c04ListOrigins(ic.Common().Args[0], ni)); !ok {
+			bad = append(bad, what)
+		}
+	}
+	if n > 0 {
+		r.Check(len(bad) == 0, s.name+".nodes.fresh", p.Pos(s.fn.Pos()), "the child's node list starts as a new empty list", "the list the child's nodes are inserted into does not start empty: it starts as "+strings.Join(uniq(bad), ", "))
+	}
+}
+
+// c04TraitIndex: the trait handed to a copy constructor is childTraits[k] with k = 0 when the copied object has no
+// trait and k = object.Trait.Id - parent.Traits[0].Id when it has one - the position of the parent object's trait in
+// the (averaged, equally ordered) trait list of the child. Any other k links the child's gene / node to a different
+// trait than its parent's, or indexes outside the list (a crossover that panics produces no child).
+// isOwnerTrait recognises the term of the copied object's Trait field.
+func (s *mateShape) c04TraitIndex(arg ssa.Value, isOwnerTrait func(*Term) bool) (bool, string) {
+	tm := s.tm
+	ld, ok := c04Unload(arg).(*ssa.UnOp)
+	if !ok || ld.Op != token.MUL {
+		return false, "the trait is " + tm.Of(arg).String() + ", not an element of the child's trait list"
+	}
+	ia, ok := ld.X.(*ssa.IndexAddr)
+	if !ok || !strings.Contains(tm.Of(ia.X).String(), "mateTraits") {
+		return false, "the trait is " + tm.Of(arg).String() + ", not an element of the child's trait list"
+	}
+	type cand struct {
+		v  ssa.Value
+		gs []Guard
+	}
+	var cands []cand
+	k := c04Unload(ia.Index)
+	if _, isPhi := k.(*ssa.Phi); !isPhi {
+		cands = append(cands, cand{k, Guards(ld.Block())})
+	} else {
+		w := phiWeb(k)
+		for ph := range w.Phis {
+			for i, e := range ph.Edges {
+				if ep, isPhi := e.(*ssa.Phi); isPhi && w.Phis[ep] {
+					continue
+				}
+				cands = append(cands, cand{e, condsAt(ph.Block().Preds[i], ph.Block())})
+			}
+		}
+	}
+	nilness := func(gs []Guard) int {
+		for _, g := range gs {
+			if n := GuardNilness(g, func(v ssa.Value) bool { return isOwnerTrait(tm.Of(v)) }); n != 0 {
+				return n
+			}
+		}
+		return 0
+	}
+	isBaseId := func(t *Term) bool {
+		if t == nil || t.Op != "field" || t.Name != "Id" || t.Args[0].Op != "elem" || len(t.Args[0].Args) < 2 {
+			return false
+		}
+		l, i := t.Args[0].Args[0].String(), t.Args[0].Args[1]
+		return (l == "recv.Traits" || l == "p1.Traits") && i.Op == "const" && i.Name == "0"
+	}
+	if len(cands) == 0 {
+		return false, "the trait index has no value"
+	}
+	for _, c := range cands {
+		if kc, isK := c.v.(*ssa.Const); isK {
+			if n, ok := constInt(kc); !ok || n != 0 {
+				return false, "the trait index can be the constant " + tm.Of(c.v).String()
+			}
+			if nilness(c.gs) != 1 {
+				return false, "the trait index is 0 although the copied object was not found to have no trait"
+			}
+			continue
+		}
+		b, isB := c.v.(*ssa.BinOp)
+		if !isB || b.Op != token.SUB {
+			return false, "the trait index can be " + tm.Of(c.v).String()
+		}
+		xt, yt := tm.Of(b.X), tm.Of(b.Y)
+		if !(xt.Op == "field" && xt.Name == "Id" && isOwnerTrait(xt.Args[0])) || !isBaseId(yt) {
+			return false, "the trait index can be " + tm.Of(c.v).String() + ", not the copied object's Trait.Id minus the first parent trait's Id"
+		}
+		if nilness(c.gs) != -1 {
+			return false, "the copied object's trait is dereferenced although it was not found to be non-nil"
+		}
+	}
+	return true, ""
+}
+
+// c04NodeTraitIs: recogniser of `<node>.Trait` for the node value n.
+func c04NodeTraitIs(n ssa.Value) func(*Term) bool {
+	n = c04Unload(n)
+	return func(t *Term) bool {
+		return t != nil && t.Op == "field" && t.Name == "Trait" && len(t.Args) > 0 && t.Args[0].V != nil && c04Unload(t.Args[0].V) == n
+	}
+}
+
+// c04NonNil: v cannot be nil where it is used (block at, reached with the additional branch outcomes extra): it is a
+// node copy, an element loaded from a list, tested non-nil on the way, or a phi all of whose inputs are.
+func c04NonNil(v ssa.Value, at *ssa.BasicBlock, extra []Guard, nnc *ssa.Function, depth int) bool {
+	if depth > 6 {
+		return false
+	}
+	gs := append(append([]Guard{}, Guards(at)...), extra...)
+	for _, g := range gs {
+		if GuardNilness(g, func(x ssa.Value) bool { return x == v }) == -1 {
+			return true
+		}
+	}
+	switch x := v.(type) {
+	case *ssa.Call:
+		return x.Call.StaticCallee() == nnc
+	case *ssa.UnOp:
+		if x.Op == token.MUL {
+			if _, isElem := x.X.(*ssa.IndexAddr); isElem {
+				return true
+			}
+			if w, ok := c04CellValue(x); ok {
+				return c04NonNil(w, at, extra, nnc, depth+1)
+			}
+		}
+	case *ssa.Phi:
+		for i, e := range x.Edges {
+			pred := x.Block().Preds[i]
+			if !c04NonNil(e, pred, condsAt(pred, x.Block()), nnc, depth+1) {
+				return false
+			}
+		}
+		return len(x.Edges) > 0
+	}
+	return false
+}
+
+// c04Lookup: an end node of the chosen gene is copied into the child only when the child has no node with that id yet.
+// The child's node list is searched by a loop that visits every index (0, 1, .. len-1), goes on to the next index only
+// when the current node's id differs from the wanted id, and is left early only on equal ids; the copy is made only
+// after that loop ran to its end (the block of the copy lies behind the loop's exhaustion exit, or is guarded by
+// `found == nil` for a variable that is nil only when the loop ran to its end). Otherwise the child gets two nodes
+// with one id (and genes attached to different copies), against "exactly the nodes its genes touch".
+func (r *Run) c04Lookup(s *mateShape, end string, w *phiWebT, copies []*ssa.Call, elems []ssa.Value) (bool, string) {
+	tm := s.tm
+	if len(copies) == 0 {
+		return true, ""
+	}
+	if len(elems) == 0 {
+		return false, "the child's node list is never searched for the " + end + ": every gene gets fresh copies of its end nodes"
+	}
+	why := ""
+	lookupOK := func(f ssa.Value, c *ssa.Call) bool {
+		ld, ok := f.(*ssa.UnOp)
+		if !ok {
+			why = "the found node is not an element of a list"
+			return false
+		}
+		ia, ok := ld.X.(*ssa.IndexAddr)
+		if !ok {
+			why = "the found node is not an element of a list"
+			return false
+		}
+		L := InnermostLoop(s.loops, ld.Block())
+		if L == nil || L == s.walk {
+			why = "the child's node is not found by a search loop"
+			return false
+		}
+		idx := c04LoopBound(tm, L, func(t *Term) bool { return fieldChainOnWeb(t, ia.X) })
+		if idx == nil || idx != ia.Index || !c04FromZeroByOne(L, idx) {
+			why = "the search loop does not visit every index of the child's node list"
+			return false
+		}
+		isElemId := func(v ssa.Value) bool { return fieldChainOn(tm.Of(v), f, "Id") }
+		isWantedId := func(v ssa.Value) bool { return fieldChainOnWeb(tm.Of(v), s.chosen, "Link", end, "Id") }
+		matched := func(gs []Guard) int {
+			for _, g := range gs {
+				if _, _, m, ok := c04OrderFact(g.Cond, g.True, isElemId, isWantedId); ok {
+					if m == c04EQ {
+						return 1
+					}
+					if m != 0 && m&c04EQ == 0 {
+						return -1
+					}
+				}
+			}
+			return 0
+		}
+		// going on to the next index: the ids were found different - or they were found equal and the node is recorded
+		// in a variable carried round the loop (`found = node; continue` instead of `found = node; break`)
+		carried := map[*ssa.Phi]bool{}
+		for _, lt := range L.Latch {
+			switch matched(condsAt(lt, L.Header)) {
+			case -1:
+			case 1:
+				rec := false
+				for _, T := range HeaderPhis(L) {
+					for i, pr := range L.Header.Preds {
+						if pr == lt && T.Edges[i] == f && w.Phis[T] {
+							rec, carried[T] = true, true
+						}
+					}
+				}
+				if !rec {
+					why = "the search goes on after equal ids without recording the node"
+					return false
+				}
+			default:
+				why = "the search goes on to the next node without having found the ids different"
+				return false
+			}
+		}
+		var hs *ssa.BasicBlock
+		for b := range L.Blocks {
+			for _, sx := range b.Succs {
+				if L.Blocks[sx] {
+					continue
+				}
+				if b == L.Header {
+					hs = sx
+				} else if matched(condsAt(b, sx)) != 1 {
+					why = "the search can be left early although the ids were not found equal"
+					return false
+				}
+			}
+		}
+		if hs == nil {
+			why = "the search loop has no exhaustion exit"
+			return false
+		}
+		C := c.Block()
+		if edgeDominates(L.Header, hs, C) {
+			return true
+		}
+		var nilOnlyWhenExhausted func(T *ssa.Phi, depth int) bool
+		nilOnlyWhenExhausted = func(T *ssa.Phi, depth int) bool {
+			if depth > 3 {
+				return false
+			}
+			if T.Block() == L.Header {
+				// a variable carried round the search: nil on entry, and inside the loop only kept or set to the found node
+				for i, e := range T.Edges {
+					if L.Blocks[L.Header.Preds[i]] {
+						if e != ssa.Value(T) && e != f {
+							return false
+						}
+					} else if k, isK := e.(*ssa.Const); !isK || k.Value != nil {
+						return false
+					}
+				}
+				return true
+			}
+			if L.Blocks[T.Block()] {
+				return false
+			}
+			for i, e := range T.Edges {
+				P := T.Block().Preds[i]
+				switch x := e.(type) {
+				case *ssa.Const:
+					if x.Value != nil {
+						return false
+					}
+					if !(P == L.Header || edgeDominates(L.Header, hs, P)) {
+						return false
+					}
+				case *ssa.Phi:
+					if x != T && !nilOnlyWhenExhausted(x, depth+1) {
+						return false
+					}
+				case *ssa.Call:
+					if x.Call.StaticCallee() != c.Call.StaticCallee() {
+						return false
+					}
+				default:
+					if e != f {
+						return false
+					}
+				}
+			}
+			return true
+		}
+		for _, g := range Guards(C) {
+			var T *ssa.Phi
+			if GuardNilness(g, func(v ssa.Value) bool {
+				ph, isPhi := v.(*ssa.Phi)
+				if isPhi && w.Phis[ph] {
+					T = ph
+					return true
+				}
+				return false
+			}) == 1 && T != nil && nilOnlyWhenExhausted(T, 0) {
+				return true
+			}
+		}
+		why = "the copy of the parent's node can be made although the search found (or did not finish looking for) a node with that id"
+		return false
+	}
+	for _, c := range copies {
+		ok := false
+		for _, f := range elems {
+			if lookupOK(f, c) {
+				ok = true
+				break
+			}
+		}
+		if !ok {
+			return false, why
+		}
+	}
+	return true, ""
+}
+
+// c04PathFeasible: the branch outcomes of a path do not contradict each other as far as comparisons of the given
+// values (cursors) with anything are concerned: the facts about one pair of values are intersected; an empty
+// intersection (i < n and i == n) means the path cannot be executed. Two phis of one block with the same inputs are
+// one value (`p2stop` and `stopper` of the single-point method).
+func c04PathFeasible(conds []Guard, isCursor func(ssa.Value) bool) bool {
+	rep := func(v ssa.Value) ssa.Value {
+		ph, ok := v.(*ssa.Phi)
+		if !ok {
+			return v
+		}
+		for _, in := range ph.Block().Instrs {
+			q, isPhi := in.(*ssa.Phi)
+			if !isPhi {
+				break
+			}
+			if q == ph {
+				return q
+			}
+			same := len(q.Edges) == len(ph.Edges)
+			for i := range q.Edges {
+				if same && q.Edges[i] != ph.Edges[i] {
+					same = false
+				}
+			}
+			if same {
+				return q
+			}
+		}
+		return v
+	}
+	type key struct{ a, b ssa.Value }
+	masks := map[key]int{}
+	any := func(ssa.Value) bool { return true }
+	for _, g := range conds {
+		l, rr, m, ok := c04OrderFact(g.Cond, g.True, isCursor, any)
+		if !ok {
+			continue
+		}
+		k := key{rep(l), rep(rr)}
+		if old, seen := masks[k]; seen {
+			masks[k] = old & m
+		} else {
+			masks[k] = m
+		}
+		if masks[k] == 0 {
+			return false
+		}
+	}
+	return true
+}
+
+// c04Progress (single-point method): every step of the gene walk moves at least one of the two cursors forward by one
+// and none backward. The walk's branches depend on the cursors (and the genes at them) only, so a step that moves no
+// cursor is repeated for ever, and a cursor that moves back (or jumps) reads a gene twice or outside the list; either
+// way no child comes out.
+func (r *Run) c04Progress(s *mateShape) {
+	p := r.P
+	cursors := map[*ssa.Phi]bool{}
+	for _, f := range phiWeb(s.chosen).Feeders {
+		if _, idx := s.parentGene(f); idx != nil {
+			if ph, ok := idx.(*ssa.Phi); ok && ph.Block() == s.walk.Header {
+				cursors[ph] = true
+			}
+		}
+	}
+	if len(cursors) == 0 {
+		r.Undecided(s.name+".walk.progress", p.Pos(s.fn.Pos()), "cannot find the cursors of the gene walk")
+		return
+	}
+	stop := s.skip1.Block()
+	paths, complete := EnumRegionPaths(s.fn, s.walk.Header, func(b *ssa.BasicBlock) bool { return b == stop }, 4000)
+	if !complete {
+		r.Undecided(s.name+".walk.progress", p.Pos(s.fn.Pos()), "too many paths through one walk step")
+		return
+	}
+	r.PathsExplored += len(paths)
+	isCursor := func(v ssa.Value) bool {
+		ph, ok := v.(*ssa.Phi)
+		return ok && cursors[ph]
+	}
+	// the other integer counters the walk carries from step to step (the single-point method counts the genes taken)
+	counters := map[*ssa.Phi]bool{}
+	for _, ph := range HeaderPhis(s.walk) {
+		if bt, ok := ph.Type().Underlying().(*types.Basic); ok && bt.Info()&types.IsInteger != 0 {
+			counters[ph] = true
+		}
+	}
+	for _, ip := range paths {
+		closes := ip.End == "cycle" && ip.Blocks[len(ip.Blocks)-1] == s.walk.Header
+		if ip.End != "stop" && !closes {
+			continue
+		}
+		if !c04PathFeasible(ip.Conds, isCursor) {
+			continue
+		}
+		total, okStep := 0, true
+		for ph := range counters {
+			var next ssa.Value
+			if closes {
+				pred := ip.Blocks[len(ip.Blocks)-2]
+				for i, pr := range ph.Block().Preds {
+					if pr == pred {
+						next = (&IterPath{Blocks: ip.Blocks[:len(ip.Blocks)-1], End: "partial"}).Resolve(ph.Edges[i])
+					}
+				}
+			} else {
+				for i, pr := range ph.Block().Preds {
+					if s.walk.Blocks[pr] {
+						next = ip.ResolveAt(ph.Edges[i])
+						break
+					}
+				}
+			}
+			switch {
+			case next == ssa.Value(ph):
+			case c04IsPlusOne(next, ph):
+				total++
+			default:
+				if cursors[ph] {
+					okStep = false
+				}
+			}
+		}
+		if !okStep || total == 0 {
+			r.Bad(s.name+".walk.progress", p.Pos(firstPos(ip)), "a step of the gene walk moves none of the walk's counters forward by one (or moves a cursor otherwise than by +1): the walk repeats the step for ever or reads outside a parent's gene list, and no child is produced", ip.Describe(p)...)
+			return
+		}
+	}
+	r.OK(s.name+".walk.progress", p.Pos(firstBlockPos(s.walk.Header)), "every step moves a counter of the walk forward by one and no cursor otherwise")
+}
+
+func c04IsPlusOne(v ssa.Value, ph *ssa.Phi) bool {
+	b, ok := v.(*ssa.BinOp)
+	if !ok || b.Op != token.ADD {
+		return false
+	}
+	x, y := b.X, b.Y
+	if y == ssa.Value(ph) {
+		x, y = y, x
+	}
+	k, isK := constInt(y)
+	_, isC := y.(*ssa.Const)
+	return x == ssa.Value(ph) && isK && isC && k == 1
 }
